@@ -51,18 +51,16 @@ def run_impl(job):
     job.impl = out
 
 
-def _write_case(tag, prelude, items):
+def _write_case(tag, prelude, terms):
+    """one definition holding the list of all tables of this file, one vm_compute"""
     os.makedirs(common.CASES, exist_ok=True)
-    body = [prelude, 'Set Printing Width 1000000.', 'Set Printing Depth 100000000.']
-    for name, term in items:
-        body.append('Definition case_%s := %s.' % (name, term))
-        body.append('Goal True. idtac "@@BEGIN %s". Abort.' % name)
-        body.append('Eval vm_compute in case_%s.' % name)
-        body.append('Goal True. idtac "@@END %s". Abort.' % name)
+    body = [prelude, 'Set Printing Width 1000000.', 'Set Printing Depth 100000000.',
+            'Definition case_all : list (list Z) := [\n %s].' % ';\n '.join(terms),
+            'Goal True. idtac "@@BEGIN". Abort.', 'Eval vm_compute in case_all.', 'Goal True. idtac "@@END". Abort.']
     open(os.path.join(common.CASES, tag + '.v'), 'w').write('\n'.join(body) + '\n')
 
 
-def _run_case(tag, names, timeout):
+def _run_case(tag, n, timeout):
     rc, out = common.sh('ulimit -s unlimited 2>/dev/null; timeout %d coqc -Q . V Cases/%s.v' % (timeout, tag), timeout=timeout + 30, cwd=common.COQ)
     for ext in ('.vo', '.vok', '.vos', '.glob'):
         try: os.remove(os.path.join(common.CASES, tag + ext))
@@ -71,17 +69,16 @@ def _run_case(tag, names, timeout):
     except OSError: pass
     if rc != 0:
         raise RuntimeError('coqc failed on Cases/%s.v:\n%s' % (tag, out[-2500:]))
-    res = {}
-    for name in names:
-        m = re.search(r'@@BEGIN %s\n(.*?)@@END %s' % (re.escape(name), re.escape(name)), out, re.S)
-        if not m: raise RuntimeError('no output for case %s' % name)
-        txt = m.group(1)
-        i = txt.index('='); j = txt.rindex(':')
-        res[name] = [int(x) for x in re.findall(r'-?\d+', txt[i + 1:j])]
-    return res
+    m = re.search(r'@@BEGIN\n(.*?)@@END', out, re.S)
+    if not m: raise RuntimeError('no output for case file %s' % tag)
+    txt = m.group(1)
+    txt = txt[txt.index('=') + 1:txt.rindex(':')].strip()
+    inner = re.findall(r'\[([^\[\]]*)\]', txt[1:-1])
+    if len(inner) != n: raise RuntimeError('case file %s: %d tables expected, %d printed' % (tag, n, len(inner)))
+    return [[int(x) for x in re.findall(r'-?\d+', t)] for t in inner]
 
 
-def coq_tables(tag, prelude, prefix, jobs, chunk=6000, timeout=900, par=8):
+def coq_tables(tag, prelude, prefix, jobs, chunk=12000, timeout=900, par=8):
     """evaluate every job's table; returns {job index: flat list} ; raises RuntimeError if the libraries do not build"""
     deps = common.prelude_deps(prelude)
     r = common.build(deps, timeout=900)
@@ -96,12 +93,12 @@ def coq_tables(tag, prelude, prefix, jobs, chunk=6000, timeout=900, par=8):
     def one(fi):
         idxs = files[fi]
         t = '%s_%d' % (tag, fi)
-        _write_case(t, prelude, [('j%d' % k, jobs[k].term(prefix)) for k in idxs])
-        return _run_case(t, ['j%d' % k for k in idxs], timeout)
+        _write_case(t, prelude, [jobs[k].term(prefix) for k in idxs])
+        return list(zip(idxs, _run_case(t, len(idxs), timeout)))
     out = {}
     with ThreadPoolExecutor(max_workers=par) as ex:
         for res in ex.map(one, range(len(files))):
-            for name, v in res.items(): out[int(name[1:])] = v
+            for k, v in res: out[k] = v
     return out
 
 
